@@ -1738,4 +1738,80 @@ Proof.
   destruct (Forall2_In_l _ _ _ _ (each_target_on_its_own _ _ HS) Htg) as (u & _ & _ & E). congruence.
 Qed.
 
+(* ====================================================================== *)
+(* Default values of __init__ parameters are not an input                   *)
+(* ====================================================================== *)
+
+Theorem ctor_defaults_irrelevant dflt dflt' m d inj :
+  create_component_dflt subclass dflt m d inj = create_component_dflt subclass dflt' m d inj.
+Proof. reflexivity. Qed.
+
+Theorem startup_defaults_irrelevant dd dd' e e' r :
+  startup_dflt subclass dd e r = startup_dflt subclass dd' e' r.
+Proof. reflexivity. Qed.
+
+(* whatever defaults are declared: a started robot passed every constructor
+   parameter the object picked from the robot attributes and the EARLIER
+   components, of the annotated type (C08_ctor) ... *)
+Theorem ctor_exact_dflt dd e r s :
+  startup_dflt subclass dd e r = Ok s ->
+  map (fun c => (cr_name c, cr_def c)) (st_comps s) = components r /\
+  forall before c d after, components r = before ++ (c, d) :: after ->
+    exists kw,
+      nth_error (st_comps s) (List.length before)
+        = Some {| cr_name := c; cr_def := d; cr_kwargs := kw |} /\
+      Forall2 (ctor_arg_ok (injectables_with r before) c) (k_init_hints (c_class d)) kw.
+Proof. exact (ctor_exact r s). Qed.
+
+(* ... and a parameter that cannot be served stops start-up *)
+Theorem ctor_fault_fails_dflt dd e r :
+  ctor_fault r -> exists err, startup_dflt subclass dd e r = Err err /\ (all_types r -> err = EInject).
+Proof. exact (ctor_fault_fails_in e r). Qed.
+
+(* ---- NOT the code: the _create_component that WOULD use the defaults ---- *)
+(* a parameter that declares a default is resolved on its own and, when the
+   robot has nothing under either name or something of another type, simply
+   left to its default.  Only here to show that the statements above exclude
+   something (the C08_nv_default examples). *)
+Fixpoint find_injections_lenient (dflt : init_defaults) (requests : list (name * cls)) (inj : imap)
+  (cname : name) : res (list (name * obj)) :=
+  match requests with
+  | [] => Ok []
+  | (n, T) :: rest =>
+    match find_injections subclass [(n, T)] inj cname, assoc n dflt with
+    | Err _, Some _ => find_injections_lenient dflt rest inj cname      (* "using the default" *)
+    | Err e, None => Err e
+    | Ok upd, _ =>
+      match find_injections_lenient dflt rest inj cname with
+      | Ok upd' => Ok (upd ++ upd')
+      | Err e => Err e
+      end
+    end
+  end.
+
+Definition create_component_lenient (dflt : init_defaults) (m : name) (d : compdef) (inj : imap)
+  : res (list (name * obj)) :=
+  match get_requests (k_init_hints (c_class d)) None with
+  | Err e => Err e
+  | Ok rq => find_injections_lenient dflt rq inj m
+  end.
+
+Lemma find_injections_lenient_nil rq inj c :
+  find_injections_lenient [] rq inj c = find_injections subclass rq inj c.
+Proof.
+  induction rq as [|[n T] rq IH]; simpl; [reflexivity|]. rewrite IH.
+  destruct (match get inj n with Some o => Some o | None => get inj (prefixed c n) end) as [o|]; [|reflexivity].
+  destruct (subclass (ocls o) T); [|reflexivity]. simpl.
+  destruct (find_injections subclass rq inj c); reflexivity.
+Qed.
+
+(* the two agree exactly when no default is declared *)
+Theorem lenient_without_defaults m d inj :
+  create_component_lenient [] m d inj = create_component_dflt subclass [] m d inj.
+Proof.
+  unfold create_component_lenient, create_component_dflt, create_component.
+  destruct (get_requests (k_init_hints (c_class d)) None); [|reflexivity].
+  apply find_injections_lenient_nil.
+Qed.
+
 End WithSubclass.
